@@ -53,6 +53,9 @@ class FS(object):
         self.cost = 5e-5
         self.on_mutate = None    # callback(fs, kind, path) after each applied op
         self.in_child = False    # the op being applied belongs to an emulated fork child
+        # user-space write buffering of open(path, 'wb'/'ab') as in CPython (BufferedWriter): what was written but not
+        # flushed/closed is not in the file when the process dies.  Off for replay files recorded before it was modelled.
+        self.ubuf = False
 
     def snapshot(self):
         return dict((k, bytes(v)) for k, v in self.files.items())
@@ -138,6 +141,8 @@ class SimFile(io.RawIOBase):
         else:
             self.buf = fs.files[path]
         self.pos = len(self.buf) if 'a' in mode else 0
+        self._ub = bytearray() if (fs.ubuf and self._w and '+' not in mode) else None
+        self._ub_pos = self.pos
         self._fd = fs.next_fd
         fs.next_fd += 1
         fs.fds[self._fd] = self
@@ -158,6 +163,7 @@ class SimFile(io.RawIOBase):
         return self.pos
 
     def seek(self, off, whence=0):
+        self.flush()
         if whence == 0:
             self.pos = off
         elif whence == 1:
@@ -181,10 +187,26 @@ class SimFile(io.RawIOBase):
         b[:len(d)] = d
         return len(d)
 
+    UBUF_SIZE = 8192
+
     def write(self, data):
         data = bytes(data)
         if not data:
             return 0
+        if self._ub is not None:
+            # BufferedWriter: small writes are collected, a write that does not fit flushes first,
+            # a write of at least the buffer size goes straight through
+            if len(self._ub) + len(data) > self.UBUF_SIZE:
+                self.flush()
+            if len(data) < self.UBUF_SIZE:
+                if not self._ub:
+                    self._ub_pos = self.pos
+                self._ub += data
+                self.pos += len(data)
+                return len(data)
+        return self._write_through(data)
+
+    def _write_through(self, data):
         buf, pos = self.buf, self.pos
 
         def fn():
@@ -204,9 +226,17 @@ class SimFile(io.RawIOBase):
         return len(data)
 
     def flush(self):
-        pass
+        if self._ub:
+            data = bytes(self._ub)
+            del self._ub[:]
+            end = self.pos
+            self.pos = self._ub_pos
+            self._write_through(data)
+            self.pos = end
 
     def close(self):
+        if not self.closed:
+            self.flush()
         self.fs.fds.pop(self._fd, None)
         io.RawIOBase.close(self)
 
